@@ -218,6 +218,8 @@ func renameSnapshotPaths(s *stack.Snapshot, from, to string) {
 	// the directory's base name is unique (MkdirTemp); DirSrc holds only that part
 	from, to = filepath.Base(from), filepath.Base(to)
 	r := func(p *string) { *p = strings.ReplaceAll(*p, from, to) }
+	// a layout whose Go root is also a module of this machine has its "remote" Go root here
+	r(&s.RemoteGOROOT)
 	m := map[string]string{}
 	for k, v := range s.LocalGomods {
 		r(&k)
